@@ -19,7 +19,7 @@ def rise_series_ok(series, zi, rows, epoch, zeta, i):
     return (0 <= zi[i][0] and zi[i][0] < zi[i][1] - 1 and zi[i][1] <= len(epoch)
             and epoch[zi[i][0]] == rows[i][2] and epoch[zi[i][1] - 1] == rows[i][3]
             and len(series[i][0]) == 2 and len(series[i][1]) == 2
-            and series[i][0][0] == 0 and series[i][0][1] == uf_real("total_depth_of", rows[i][0])
+            and series[i][0][0] == 0 and series[i][0][1] == uf_real("total_depth_of", rows[i][0]) and series[i][0][1] > 0
             and series[i][1][0] == zeta[zi[i][0]] and series[i][1][1] == zeta[zi[i][1] - 1])
 
 
@@ -151,7 +151,8 @@ def rec_series_ok(series, rows, epoch, zeta, i):
     start epoch, ends at its thru epoch, stays inside it, and pairs every epoch with a level."""
     return (len(series[i][0]) >= 1 and len(series[i][1]) == len(series[i][0])
             and series[i][0][0] == rows[i][0] and series[i][0][len(series[i][0]) - 1] == rows[i][1]
-            and forall(0, len(series[i][0]), lambda k: rows[i][0] <= series[i][0][k] and series[i][0][k] <= rows[i][1]))
+            and forall(0, len(series[i][0]), lambda k: rows[i][0] <= series[i][0][k] and series[i][0][k] <= rows[i][1])
+            and forall(0, len(series[i][0]), lambda k2: forall(0, k2, lambda k: series[i][0][k] < series[i][0][k2])))
 
 
 @spec
